@@ -221,11 +221,14 @@ def run(report, tier, seed):
             elif spelling == "method":
                 ci = lambda: getattr(p, fname)(**kw)           # noqa: E731
             elif spelling == "reduce":
-                ci = lambda: numpy.add.reduce(p, **({"axis": kw.get("axis")}))   # noqa: E731
+                ci = lambda: numpy.add.reduce(p, **({"axis": kw["axis"]} if "axis" in kw else {}))   # noqa: E731
             else:
                 ci = lambda: numpy.add.accumulate(p, axis=kw["axis"])            # noqa: E731
             desc = f"{tuple(s)}, {kw}, spelling={spelling}"
-            out = attempt(fname, desc, [p], ci, lambda: getattr(numpy, fname)(fa, **kw), approx=fname == "mean")
+            ref = (lambda: numpy.add.reduce(fa, **kw)) if spelling == "reduce" else \
+                  (lambda: numpy.add.accumulate(fa, axis=kw["axis"])) if spelling == "accumulate" else \
+                  (lambda: getattr(numpy, fname)(fa, **kw))
+            out = attempt(fname, desc, [p], ci, ref, approx=fname == "mean")
             if out and fname != "mean" and out[0]:
                 (sh, els), formal, _ = out
                 ws = [wlist(f) if isinstance(f, Formal) else None for f in as_obj_array(formal).reshape(-1).tolist()]
@@ -288,16 +291,17 @@ def run(report, tier, seed):
         spelling = rng.choice(["numpoly", "numpy", "method"] + (["reduce"] if not isinstance(ax, tuple) and "keepdims" not in kw else []))
         fa = formal_array(p, 0)
         ci = {"numpoly": lambda: numpoly.prod(p, **kw), "numpy": lambda: numpy.prod(p, **kw), "method": lambda: p.prod(**kw),
-              "reduce": lambda: numpy.multiply.reduce(p, axis=kw.get("axis"))}[spelling]
+              "reduce": lambda: numpy.multiply.reduce(p, **({"axis": kw["axis"]} if "axis" in kw else {}))}[spelling]
         desc = f"{tuple(s)}, {kw}, spelling={spelling}"
-        out = attempt("prod", desc, [p], ci, lambda: numpy.prod(fa, **kw))
+        out = attempt("prod", desc, [p], ci, (lambda: numpy.multiply.reduce(fa, **kw)) if spelling == "reduce" else (lambda: numpy.prod(fa, **kw)))
         if out and out[0] and "keepdims" not in kw and not isinstance(ax, tuple):
             (sh, els), formal, _ = out
             idx = numpy.arange(p.size).reshape(p.shape)
-            if kw.get("axis") is None:
+            eff_axis = 0 if (spelling == "reduce" and "axis" not in kw) else kw.get("axis")
+            if eff_axis is None:
                 slices = [[int(i)] for i in idx.ravel()]
             else:
-                slices = [numpy.take(idx, k, axis=kw["axis"]).ravel().tolist() for k in range(p.shape[kw["axis"]])]
+                slices = [numpy.take(idx, k, axis=eff_axis).ravel().tolist() for k in range(p.shape[eff_axis])]
             cc.add(f"chk_wf (zpprod D {core.cnats(sh)} {core.cseq(core.cnats(f) for f in slices)} {core.coq_parr(core.poly_layout(p))}) "
                    f"(EOk {core.coq_obs(sh, els)})", {"function": "prod", "args": desc, "poly": gen.describe(p)})
         # ---- inner / outer / matmul -------------------------------------------------------------------------
